@@ -259,17 +259,17 @@ harness!(none, 180, c19_f32_c16_cap, capacity_body::<f32, U16, 2, 5>());
 harness!(none, 180, c19_u32_c5_r3_r1_r4, resize2_body::<u32, U5, 3, 1, 4>());
 //@ C19 quick 800 DenseMatrix<u8, 16>: new(2), writes, resize(0), resize(3), fill
 harness!(none, 180, c19_u8_c16_r2_r0_r3, resize2_body::<u8, U16, 2, 0, 3>());
-//@ C19 thorough 5400 DenseMatrix<f32, 7>: new(2), writes, resize(3), resize(1), fill
+//@ C19 quick 800 DenseMatrix<f32, 7>: new(2), writes, resize(3), resize(1), fill
 harness!(none, 180, c19_f32_c7_r2_r3_r1, resize2_body::<f32, U7, 2, 3, 1>());
-//@ C19 thorough 5400 DenseMatrix<u32, 43> (stride 48): new(2) ... resize(4) | mem=12
-harness!(none, 180, c19_u32_c43_r2_r4, ops_body::<u32, U43, 2, 4>());
-//@ C19 thorough 5400 DenseMatrix<i64, 21> (stride 24): new(3) ... resize(2) | mem=12
+//@ C19 thorough 1800 DenseMatrix<u32, 43> (stride 48): new(2) ... resize(4) | mem=12
+harness!(none, 200, c19_u32_c43_r2_r4, ops_body::<u32, U43, 2, 4>());
+//@ C19 quick 800 DenseMatrix<i64, 21> (stride 24): new(3) ... resize(2) | mem=12
 harness!(none, 180, c19_i64_c21_r3_r2, ops_body::<i64, U21, 3, 2>());
-//@ C19 thorough 5400 DenseMatrix<f32, 32>: new(4) ... resize(4) | mem=12
+//@ C19 thorough 1800 DenseMatrix<f32, 32>: new(4) ... resize(4) | mem=12
 harness!(none, 180, c19_f32_c32_r4_r4, ops_body::<f32, U32, 4, 4>());
-//@ C19 thorough 5400 DenseMatrix<u8, 7> (stride 32): new(3) ... resize(1)
+//@ C19 quick 800 DenseMatrix<u8, 7> (stride 32): new(3) ... resize(1)
 harness!(none, 180, c19_u8_c7_r3_r1, ops_body::<u8, U7, 3, 1>());
-//@ C19 thorough 5400 DenseMatrix<u32, 16>: new(1) ... resize(2)
+//@ C19 quick 800 DenseMatrix<u32, 16>: new(1) ... resize(2)
 harness!(none, 180, c19_u32_c16_r1_r2, ops_body::<u32, U16, 1, 2>());
-//@ C19 thorough 5400 DenseMatrix<i64, 1>: with_capacity(3, 3), reserve
+//@ C19 quick 800 DenseMatrix<i64, 1>: with_capacity(3, 3), reserve
 harness!(none, 180, c19_i64_c1_cap, capacity_body::<i64, U1, 3, 3>());
